@@ -439,6 +439,9 @@ class Fn(object):
             o = WeakObj(self.name + ".result")
             w.weak[self.name[:-3] + ".result"] = weakref.ref(o)
             return o
+        if kind == "badstr":
+            # a result object that cannot be printed: str() and repr() of it raise
+            return BadStr(("c", self.name, k))
         if kind == "raise":
             e = EXC[b[1]]()
             e.tag = ("c", self.name, k)
@@ -1291,6 +1294,16 @@ class CallableObj(object):
     def __call__(self, *args, **kwargs):
         self.calls += 1
         return self._fn(*args, **kwargs)
+
+
+class BadStr(tuple):
+    """A perfectly good result object whose __str__ / __repr__ raise (a half-initialised record, a proxy to a closed connection).
+    (A tuple carrying the usual tag, so that the harness can still tell whose result it is.)"""
+
+    def __str__(self):
+        raise ValueError("this object cannot be printed")
+
+    __repr__ = __str__
 
 
 class FalsyCallableObj(CallableObj):
